@@ -16,7 +16,7 @@ def case_hash(case):
 
 
 def write_replay(prop, case, viol):
-    d = os.path.join(ROOT, 'replays', prop)
+    d = os.path.join(os.environ.get('PYX_REPLAY_DIR') or os.path.join(ROOT, 'replays'), prop)
     os.makedirs(d, exist_ok=True)
     path = os.path.join(d, case_hash(case) + '.json')
     with open(path, 'w') as f:
@@ -32,6 +32,8 @@ def main(argv=None):
     ap.add_argument('--limit', type=int, default=0)
     a = ap.parse_args(argv)
     os.environ.setdefault('PYTHONHASHSEED', '0')
+    if os.environ.get('PYX_REPO'):      # mutation campaign only: explore a scratch tree instead of /repo
+        sys.path.insert(0, os.environ['PYX_REPO'])
     seed = int(os.environ.get('VERIF_SEED', '0') or 0)
     tier = a.tier if a.tier in ('quick', 'thorough') else 'quick'
     mod = importlib.import_module(f'pyx.props.{a.prop}')
